@@ -857,6 +857,8 @@ class DAG(nx.DiGraph):
         Causality: Models, Reasoning, and Inference, Judea Pearl (2000). p.70.
         """
         dag = self if inplace else self.copy()
+        # networkx's copy() builds a fresh instance and does not carry the latent set over.
+        dag.latents = set(self.latents)
 
         if isinstance(nodes, (str, int)):
             nodes = [nodes]
